@@ -348,6 +348,8 @@ fn pres(n: usize) -> Vec<Pre> {
             // rows without coefficients behind an ordinary one: 0 <= -1 makes the set empty, 0 <= 1 says nothing
             Pre::Poly(vec![(vec![1.0], 1.0), (vec![0.0], -1.0)]),
             Pre::Poly(vec![(vec![1.0], 1.0), (vec![0.0], 1.0), (vec![-1.0], 1.0)]),
+            // two parallel rows one unit in the last place apart, the looser one first
+            Pre::Poly(vec![(vec![1.0], 1.0 + f64::EPSILON), (vec![1.0], 1.0), (vec![-1.0], 1.0)]),
         ]
     } else {
         vec![
